@@ -69,6 +69,10 @@ class SourceIndex:
 
     def find_nested(self, outer_node, name, ordinal=0):
         """Nested FunctionDef `name` (ordinal-th occurrence) inside outer_node."""
+        if name == '<lambda>':
+            found = [n for n in ast.walk(outer_node) if isinstance(n, ast.Lambda)]
+            found.sort(key=lambda n: (n.lineno, n.col_offset))
+            return found[ordinal]
         found = [n for n in ast.walk(outer_node)
                  if isinstance(n, ast.FunctionDef) and n.name == name and n is not outer_node]
         found.sort(key=lambda n: n.lineno)
